@@ -408,6 +408,15 @@ fn process_group<const P: usize>(
         }
     }
 
+    for (k, mut sd) in group.iter_mut(md).enumerate() {
+        if let Some(&d) = members.get(k) {
+            if !ctx.layouts[d].oversampling.is_empty() {
+                // the API wants a 'static slice; a case lives for one process anyway
+                sd.set_oversampling(Box::leak(ctx.layouts[d].oversampling.clone().into_boxed_slice()));
+            }
+        }
+    }
+
     let g = step!(env, gj, "preop_pdi", group.into_pre_op_pdi(md));
 
     if ctx.variant == "dc" {
@@ -614,6 +623,13 @@ pub fn run(case: &Value, seed: u64) -> Obj {
                         "expected_out_bytes": l.expected_out_bytes(),
                         "in_sms": sms(&l.in_sms),
                         "out_sms": sms(&l.out_sms),
+                        "coe": l.coe,
+                        "fmmu_usage": l.desc.fmmu_usage,
+                        "fmmu_ex": l.desc.fmmu_ex.iter().map(|e| e[1]).collect::<Vec<u8>>(),
+                        "desc_sms": l.desc.sync_managers.iter().map(|s| json!({
+                            "start": s.start, "length": s.length, "control": s.control, "enable": s.enable, "usage": s.usage,
+                        })).collect::<Vec<_>>(),
+                        "oversampling": l.oversampling.iter().map(|(i, m)| json!([i, m])).collect::<Vec<_>>(),
                         "reg_0981": dev.reg_u8(0x0981),
                         "reg_0990": limbs64(dev.reg_u64(0x0990)),
                         "reg_09a0": limbs32(dev.reg_u32(0x09A0)),
